@@ -221,3 +221,109 @@ func cmdReplayCosmetic(args []string) error {
 func init() {
 	register("replay-cosmetic", cmdReplayCosmetic)
 }
+
+// ---- code -> spec: the element-hiding rules of the bundled lists ----
+
+type cosApplicable struct {
+	Content string `json:"content"`
+	Exc     bool   `json:"exc"`
+	Generic bool   `json:"generic"`
+}
+
+type cosEvent struct {
+	Host       string          `json:"host"`
+	CSS        bool            `json:"css"`
+	GCSS       bool            `json:"gcss"`
+	Applicable []cosApplicable `json:"applicable"`
+	Generic    []string        `json:"generic"`
+	Specific   []string        `json:"specific"`
+	Panic      bool            `json:"panic"`
+}
+
+// vh drive-cosmetic n=<hostnames> out=<trace.ndjson>
+func cmdDriveCosmetic(args []string) error {
+	m := argMap(args)
+	n := argInt(m, "n", 300)
+	out, err := newNDWriter(m["out"])
+	if err != nil {
+		return err
+	}
+	defer out.close()
+	rnd := rand.New(rand.NewSource(seed()*29 + 10))
+	var cos []*rules.CosmeticRule
+	var texts []string
+	generic := 0
+	for _, line := range listRuleLines(repoDir()) {
+		r, err := rules.NewRule(line, 1)
+		cr, ok := r.(*rules.CosmeticRule)
+		if err != nil || !ok {
+			continue
+		}
+		if cr.IsGeneric() && !cr.Whitelist {
+			// thousands of generic rules apply everywhere: keep a seeded sample of them
+			if rnd.Intn(40) != 0 {
+				continue
+			}
+			generic++
+		}
+		cos = append(cos, cr)
+		texts = append(texts, line)
+	}
+	// a few synthetic rules around the sampled hosts exercise sub-domains, wildcards and exclusions on real data
+	var domains []string
+	for _, cr := range cos {
+		for _, d := range cr.GetPermittedDomains() {
+			if !strings.HasSuffix(d, ".*") {
+				domains = append(domains, d)
+			}
+		}
+	}
+	if len(domains) == 0 {
+		return fmt.Errorf("the bundled lists contain no domain-specific cosmetic rules")
+	}
+	st, err := buildStorage([][]string{texts[:len(texts)/2], texts[len(texts)/2:]})
+	if err != nil {
+		return err
+	}
+	eng := urlfilter.NewCosmeticEngine(st)
+	nonEmpty := 0
+	for i := 0; i < n; i++ {
+		d := domains[rnd.Intn(len(domains))]
+		host := d
+		switch rnd.Intn(5) {
+		case 0:
+			host = "www." + d
+		case 1:
+			host = "a.b." + d
+		case 2:
+			host = "not" + d
+		case 3:
+			if k := strings.IndexByte(d, '.'); k > 0 {
+				host = d[k+1:]
+			}
+		}
+		flags := rnd.Intn(4)
+		ev := cosEvent{Host: host, CSS: flags&1 == 0, GCSS: flags&2 == 0, Applicable: []cosApplicable{}, Generic: []string{}, Specific: []string{}}
+		for _, cr := range cos {
+			if cr.Match(host) {
+				ev.Applicable = append(ev.Applicable, cosApplicable{Content: cr.Content, Exc: cr.Whitelist, Generic: cr.IsGeneric()})
+			}
+		}
+		pv := safeCall(func() {
+			res := eng.Match(host, ev.CSS, true, ev.GCSS)
+			ev.Generic = append(ev.Generic, res.ElementHiding.Generic...)
+			ev.Specific = append(ev.Specific, res.ElementHiding.Specific...)
+		})
+		ev.Panic = pv != ""
+		if len(ev.Specific) > 0 {
+			nonEmpty++
+		}
+		out.write(ev)
+	}
+	summary(map[string]any{"events": out.n, "cosmetic_rules": len(cos), "generic_sampled": generic, "with_specific_result": nonEmpty})
+	return nil
+}
+
+func init() {
+	register("drive-cosmetic", cmdDriveCosmetic)
+}
